@@ -86,6 +86,9 @@ enum {
 #ifndef BAMT_FULL
 #define BAMT_FULL 0   /* 1: buffer amounts range over all of uint64; 2: concrete choices 0..3 (where the library converts levels to double) */
 #endif
+#ifndef TEARDOWN
+#define TEARDOWN 0    /* 1: orderly shut-down at the end: stop whoever is still suspended, print the reports, terminate and destroy everything (C10) */
+#endif
 #ifndef OBSERVE
 #define OBSERVE 0     /* 1: condition observes the resource guard via cmb_resourceguard_register, 2: via cmb_condition_subscribe */
 #endif
@@ -876,6 +879,44 @@ void h_sim(void)
         cmb_objectqueue_recording_stop(OQ); check_history(cmb_objectqueue_history(OQ), &trO, "objectqueue");
         cmb_priorityqueue_recording_stop(PQ); check_history(cmb_priorityqueue_history(PQ), &trQ, "priorityqueue");
     }
+#if TEARDOWN
+    /* ---- the end of a valid program: whoever is still suspended is stopped (from the dispatcher), the statistics are
+     * reported, every object is terminated and destroyed.  Only memory safety / aborts are at stake here (C10). */
+    for (int i = 0; i < NPROC; i++) {
+        if (P[i].started && !P[i].finished) {
+            void *val = (void *)(intptr_t)(900 + i);
+            shadow_end(i, 1, val);
+            cmb_process_stop(P[i].p, val);
+            sym_assert(cmb_process_status(P[i].p) == CMB_PROCESS_FINISHED, "a stopped process is finished");
+        }
+    }
+    { uint64_t g2 = 0; while (cmb_event_execute_next()) { sym_assume(++g2 < 100); } }
+    for (int i = 0; i < NPROC; i++) {
+        sym_assert(cmb_resource_held_by_process(R, P[i].p) == 0 && cmb_resourcepool_held_by_process(PL, P[i].p) == 0, "nothing is held after every process has ended");
+        sym_note("name", (uint64_t)(cmb_process_name(P[i].p)[0]));
+        sym_assert(cmb_process_priority(P[i].p) == cmb_process_priority(P[i].p) && cmb_process_context(P[i].p) == (void *)(intptr_t)i, "context query returns the start argument");
+    }
+    sym_assert(cmb_resource_in_use(R) == 0 && cmb_resourcepool_in_use(PL) == 0, "nothing is in use after every process has ended");
+    if (REC && TEARDOWN >= 2) {        /* the reports bin the recorded values: only for scenarios whose amounts are concrete */
+        cmb_resource_print_report(R, stdout);
+        cmb_resourcepool_print_report(PL, stdout);
+        cmb_buffer_print_report(B, stdout);
+        cmb_objectqueue_report_print(OQ, stdout);
+        cmb_priorityqueue_report_print(PQ, stdout);
+    }
+    cmb_event_queue_print(stdout);
+    sym_note("names", (uint64_t)(cmb_resource_name(R)[0] + cmb_resourcepool_get_name(PL)[0] + cmb_buffer_get_name(B)[0] + cmb_objectqueue_name(OQ)[0] + cmb_priorityqueue_name(PQ)[0]));
+    if (OBSERVE == 1) sym_assert(cmb_resourceguard_unregister(&R->guard, &CV->guard), "unregister finds the registered observer");
+    if (OBSERVE == 2) sym_assert(cmb_condition_unsubscribe(CV, &R->guard), "unsubscribe finds the subscription");
+    cmb_condition_terminate(CV); cmb_condition_destroy(CV);
+    cmb_priorityqueue_terminate(PQ); cmb_priorityqueue_destroy(PQ);
+    cmb_objectqueue_terminate(OQ); cmb_objectqueue_destroy(OQ);
+    cmb_buffer_terminate(B); cmb_buffer_destroy(B);
+    cmb_resourcepool_terminate(PL); cmb_resourcepool_destroy(PL);
+    cmb_resource_terminate(R); cmb_resource_destroy(R);
+    for (int i = 0; i < NPROC; i++) { cmb_process_terminate(P[i].p); cmb_process_destroy(P[i].p); }
+    cmb_event_queue_terminate();
+#endif
 #ifdef WITNESS
     { int nf = 0; for (int i = 0; i < NPROC; i++) nf += P[i].finished; sym_assert(nf == 0, "WITNESS some process ran to its end"); }
 #endif
